@@ -12,8 +12,9 @@ def parse(d, data, kw=None, start=0, trail=b"", timeout=3):
     try:
         with watchdog(timeout):
             v = d.parse_stream(s, **(kw or {}))
+            end = s.tell()          # before norm(): forcing lazy results moves the stream
             v = T.norm(v)
-        return ("ok", v, s.tell())
+        return ("ok", v, end)
     except Hang:
         return ("hang",)
     except C.ConstructError as e:
